@@ -206,7 +206,7 @@ CHECKS = {
              "configuration sequences on one thread and gates on noiseless constants are part of the scenarios. 'Every order the API allows' is the TLA+ machine Life (6 objects, 3 blobs, the collector; guards = what must be alive): TLC checks NoDangling/DeadIsEmpty/NoStuck for all behaviours up to 9 (thorough: 11) calls and for both "
              "parameter kinds, samples ~20 (thorough: ~250) long behaviours, and every one is replayed by h_life; Trace_Life accepts a replay only if each step is an enabled Life action, each decryption returns Life's plaintext, gate outputs are one function of (key, gate, inputs) across generated and re-imported key objects and across runs, "
              "key exports are byte-identical, and the windows are clean.",
-        note="PARTIAL: decides heap out-of-bounds writes within 64 bytes of a block, leaks, double frees, and uses of uninitialised/freed heap memory that change a result or an export. NOT decided: out-of-bounds reads without effect, stack accesses, accesses far outside a block, "
+        note="PARTIAL: decides heap out-of-bounds writes within 64 bytes of a block, leaks, double frees, uses of uninitialised/freed heap memory that change a result or an export, and - in a third pass where every block of 1 to 64 KiB ends on an inaccessible page - any access (reads included) past the end of a coefficient or sample array. NOT decided: out-of-bounds reads before a block or past the end of smaller blocks, stack accesses, accesses far outside a block, "
              "anything inside hand-written assembly that stays in mapped memory. The ASan/UBSan/Valgrind configurations named by the property are a different technique and are not run. Found and repaired through this family of checks: D2, D3, D4.",
         design="§6 C16, §7"),
     "C20": dict(
